@@ -348,6 +348,12 @@ Proof.
 Qed.
 
 (* inventories of the four seeded changes are rejected by the classification *)
+(* a Write ON a package-level hash is a mutation although the data argument of a Write is not *)
+Example write_on_global_hash_rejected :
+  globals_benign [("m.vHash"%string, true, [("m:All"%string, "method:io.Writer.Write"%string)])] = false
+  /\ globals_benign [("m.vData"%string, true, [("m:All"%string, "arg:io.Writer.Write"%string)])] = true.
+Proof. split; vm_compute; reflexivity. Qed.
+
 Example seeded_inventories_rejected :
   globals_benign [("internal/openpgp.checkedBindings"%string, false,
       [("internal/openpgp:addUserID"%string, "method:sync.Map.Load"%string); ("internal/openpgp:addUserID"%string, "method:sync.Map.Store"%string)])] = false
